@@ -4040,6 +4040,10 @@ class Client:
                        )
 
         self._sock_close()
+        if self._state in (_ConnectionState.MQTT_CS_DISCONNECTING, _ConnectionState.MQTT_CS_DISCONNECTED):
+            self._state = _ConnectionState.MQTT_CS_DISCONNECTED
+        else:
+            self._state = _ConnectionState.MQTT_CS_CONNECTION_LOST
         self._do_on_disconnect(
             packet_from_broker=True,
             v1_rc=MQTTErrorCode.MQTT_ERR_SUCCESS,  # If reason is absent (remaining length < 1), it means normal disconnection
